@@ -775,6 +775,8 @@ fn collect_bodies<'tcx>(tcx: TyCtxt<'tcx>) -> Vec<(LocalDefId, Body<'tcx>, Vec<B
         let kind = tcx.def_kind(def.to_def_id());
         match kind {
             DefKind::Fn | DefKind::AssocFn | DefKind::Closure | DefKind::SyntheticCoroutineBody => {}
+            // initialisers of named constants and statics (lookup tables) are bodies too
+            DefKind::Const { .. } | DefKind::AssocConst { .. } | DefKind::Static { .. } => {}
             _ => continue,
         }
         let (steal, promoted) = tcx.mir_promoted(def);
